@@ -646,6 +646,10 @@ func (e *Exec) callByContract(cc *callCtx, fn *ssa.Function, ctr *FuncContract, 
 			panic(fmt.Sprintf("fatal: contract of %s: requires %s: %v", ctr.Name, cl.Text, err))
 		}
 		props := cl.Props
+		if cl.Assumed {
+			e.assumes["assumed-precondition of "+ctr.Name+": "+cl.Text] = true
+			continue
+		}
 		e.oblige("pre", "call."+ctr.Name, mergeProps(props, e.rootProps()), cc.reach, t,
 			fmt.Sprintf("precondition of %s at call site: %s", ctr.Name, cl.Text), "requires "+cl.Text)
 		e.assume(Implies(cc.reach, t), "")
@@ -864,6 +868,9 @@ func (e *Exec) siteClauses(cc *callCtx) {
 			e.siteSeq[at.Callee]++
 			siteNo[at.Callee] = e.siteSeq[at.Callee]
 		}
+		if at.Site != 0 && at.Site != siteNo[at.Callee] {
+			continue
+		}
 		site := fmt.Sprintf("%s.s%d.c%d", at.Callee, siteNo[at.Callee], clauseNo[at.Callee])
 		env := e.rootEnv(cc.f, cc.st)
 		for i, bn := range at.Binders {
@@ -925,6 +932,9 @@ func (e *Exec) builtin(cc *callCtx, name string) Val {
 		e.note("close(chan) recorded as a ghost event")
 		cn := "CLOSED"
 		c := e.comp(st, cn, "(Array Int Bool)")
+		if e.rootCtr != nil && e.rootCtr.CloseChan {
+			e.safety("closechan", And(Not(Eq(a[0].Term, "0")), Not(Select(c, a[0].Term))), cc.reach, "close of nil or already closed channel")
+		}
 		e.setComp(st, cn, "(Array Int Bool)", Store(c, a[0].Term, "true"))
 		return Val{T: cc.resT, Term: "0"}
 	case "print", "println":
